@@ -236,13 +236,6 @@ def run_case(desc: tuple, emissions: tuple, final: tuple, loop: VLoop, earlier: 
     if proc.is_successful != want_success or proc.successful() != want_success:
         violate('success-flag', {'got': proc.is_successful, 'want': want_success, 'outputs': model_outputs},
                 valid_outputs=valid, returned_successful=ret_ok)
-    closed = False
-    try:
-        proc.add_cleanup(lambda: None)
-    except plumpy.ClosedError:
-        closed = True
-    if not closed or cleanups != [1]:
-        violate('termination-bookkeeping', {'closed': closed, 'cleanups': len(cleanups)}, valid_outputs=valid)
     if proc.future().result() != proc.outputs or proc.outputs != model_outputs:
         violate('future-or-outputs-differ', {'future': proc.future().result(), 'outputs': proc.outputs, 'want': model_outputs})
     return violations
